@@ -53,13 +53,22 @@ func SchedCustom(prop string, race bool) func(tier string, env *Env) *Summary {
 		var wg sync.WaitGroup
 		perScen := map[string]int{}
 		bounds := map[string]int{}
-		steps, points, pruned, maxThreads := 0, 0, 0, 0
+		steps, points, pruned, maxThreads, races := 0, 0, 0, 0, 0
 		for sh := 0; sh < env.Workers; sh++ {
 			wg.Add(1)
 			go func(sh int) {
 				defer wg.Done()
 				cmd := exec.Command(bin, "run", prop, tier, strconv.Itoa(sh), strconv.Itoa(env.Workers), strconv.FormatInt(env.Deadline.Unix(), 10))
-				cmd.Env = append(os.Environ(), "GOMAXPROCS=2", "GOTRACEBACK=all", "GORACE=halt_on_error=0 history_size=2")
+				cmd.Env = append(os.Environ(), "GOMAXPROCS=2", "GOTRACEBACK=all")
+				if race {
+					base := filepath.Join(env.Root, ".build", fmt.Sprintf("race-%s-%d", prop, sh))
+					if old, _ := filepath.Glob(base + ".*"); len(old) > 0 {
+						for _, f := range old {
+							os.Remove(f)
+						}
+					}
+					cmd.Env = append(cmd.Env, "GORACE=halt_on_error=0 history_size=3 log_path="+base, "VERIF_RACE_LOG="+base)
+				}
 				var stderr bytes.Buffer
 				cmd.Stderr = &stderr
 				out, _ := cmd.StdoutPipe()
@@ -135,6 +144,7 @@ func SchedCustom(prop string, race bool) func(tier string, env *Env) *Summary {
 				if !done.Complete {
 					sum.Complete = false
 				}
+				races += done.Races
 			}(sh)
 		}
 		wg.Wait()
@@ -147,6 +157,9 @@ func SchedCustom(prop string, race bool) func(tier string, env *Env) *Summary {
 		sum.Extra["schedules_per_scenario"] = perScen
 		sum.Extra["preemption_bound_completed"] = bounds
 		sum.Extra["race_detector"] = race
+		if race {
+			sum.Extra["race_reports"] = races
+		}
 		sum.schedSteps = steps
 		return sum
 	}
